@@ -15,8 +15,22 @@ import (
 	"github.com/skx/evalfilter/v2/object"
 )
 
+// maxDepth is the deepest AST which we will compile.
+//
+// The parser limits the nesting of brackets and blocks, but a long chain
+// of operators - "1 + 1 + 1 .." - also results in a deep tree.  We walk
+// the tree recursively, so without a limit a (huge) script can exhaust the
+// stack of the goroutine we're running on, which is fatal for the host.
+const maxDepth = 10000
+
 // compile is core-code for converting the AST into a series of bytecodes.
 func (e *Eval) compile(node ast.Node) error {
+
+	e.depth++
+	defer func() { e.depth-- }()
+	if e.depth > maxDepth {
+		return fmt.Errorf("the program is nested too deeply")
+	}
 
 	switch node := node.(type) {
 
